@@ -11,13 +11,13 @@ pub static DEF: CheckDef = CheckDef {
     id: "C20",
     run,
     replay,
-    rule: "(a) all 65536 addresses, each written in decimal (plain and zero-padded) and in 0x-hexadecimal (lower, upper, mixed-case digits, zero-padded), passed bare (with ASCII and Unicode white space around) to parse_address and inside break / p / print lines with generated letter case and padding to parse_command: must give exactly that value / command. (b) an enumerated family of malformed and out-of-range numerals (65536.., 0x10000.., empty, 0x, 12a, -1, 1e3, 0x12g, embedded spaces, digits beyond 64 characters) and proptest numerals around the range limit: must be rejected. (c) proptest lines: arbitrary Unicode strings, printable strings, and structured lines (command words in random case, unknown words, arguments) - parse_command must return without panicking and agree with the reference grammar. (d) proptest byte sequences composed of complete instructions (all 256 first bytes incl. CB-prefixed and undefined ones, arbitrary operands, up to 64 instructions, any base address incl. wrap past 0xFFFF): disassemble() rendered through Display must tile the input exactly - addresses, lengths and bytes - and agree with decoder::decode and with the reference length table. Non-trivial = line that parses to a command / sequence with at least one three-byte and one CB-prefixed instruction; distinct by hash of the input.",
+    rule: "(a) all 65536 addresses, each written in decimal (plain and zero-padded) and in 0x-hexadecimal (lower, upper, mixed-case digits, zero-padded), passed bare (with ASCII and Unicode white space around) to parse_address and inside break / p / print lines with generated letter case and padding to parse_command: must give exactly that value / command. (b) an enumerated family of malformed and out-of-range numerals (65536.., 0x10000.., empty, 0x, 12a, -1, 1e3, 0x12g, embedded spaces, digits beyond 64 characters) and proptest numerals around the range limit: must be rejected. (c) proptest lines: arbitrary Unicode strings, printable strings, and structured lines (command words in random case, unknown words, arguments) - parse_command must return without panicking and agree with the reference grammar. (d) proptest byte sequences composed of complete instructions (all 256 first bytes incl. CB-prefixed and undefined ones, arbitrary operands, up to 64 instructions, any base address incl. wrap past 0xFFFF): disassemble() rendered through Display must tile the input exactly - addresses, lengths and bytes - and agree with decoder::decode and with the reference length table. Long listings: generated listings of 0xFFF0 to 0x30005 bytes (just under, exactly and well over 64 KiB) at three base addresses get the same tiling check. Non-trivial = line that parses to a command / sequence with at least one three-byte and one CB-prefixed instruction; distinct by hash of the input.",
     assumptions: &[
         "reference grammar: tokens are separated by Unicode white space; the first token lower-cased selects the command; decimal = [0-9]+, hexadecimal = 0x[0-9a-fA-F]+, value <= 65535",
         "gray zone, either outcome accepted but a returned value must equal the digits: a leading '+', an upper-case 0X prefix, non-ASCII digits; command words that only match after non-ASCII case folding; extra tokens after a complete command; lines whose first token is not a command word are only required not to panic",
         "instruction lengths: models::sm83::LENGTHS (published table); undefined opcodes are one byte",
     ],
-    required_classes: &["address-decimal", "address-hex", "address-in-command", "malformed-rejected", "out-of-range-rejected", "unicode-line", "command-recognised", "disasm-three-byte-and-cb", "disasm-wraps", "gray-numeral"],
+    required_classes: &["address-decimal", "address-hex", "address-in-command", "malformed-rejected", "out-of-range-rejected", "unicode-line", "command-recognised", "disasm-three-byte-and-cb", "disasm-wraps", "gray-numeral", "disasm-listing-of-64k-or-more"],
     exhaustive: true,
 };
 
@@ -315,6 +315,36 @@ fn test_disasm(base: u16, instrs: &[Vec<u8>]) -> CaseResult {
     Ok(())
 }
 
+/// a listing of exactly `size` bytes made of complete instructions, from a seed
+fn long_listing(seed: u64, size: usize) -> Vec<Vec<u8>> {
+    let mut x = splitmix(seed);
+    let mut out: Vec<Vec<u8>> = Vec::new();
+    let mut total = 0usize;
+    while total < size {
+        x = splitmix(x);
+        let mut op = x as u8;
+        let left = size - total;
+        if ref_len(op) > left {
+            op = 0x00;
+        }
+        let n = ref_len(op);
+        let mut v = vec![op];
+        if n > 1 {
+            v.push((x >> 8) as u8);
+        }
+        if n > 2 {
+            v.push((x >> 16) as u8);
+        }
+        total += n;
+        out.push(v);
+    }
+    out
+}
+
+fn long_json(base: u16, seed: u64, size: usize) -> Value {
+    json!({"kind": "disasm-long", "base": base, "seed": seed, "size": size})
+}
+
 fn hex_forms(v: u16) -> Vec<String> {
     vec![format!("0x{:x}", v), format!("0x{:X}", v), format!("0x{:04x}", v), format!("0x{:08X}", v), {
         // mixed case digits
@@ -509,6 +539,28 @@ fn run(rec: &mut Rec) {
         }
         test_disasm(*base, instrs)
     });
+    // long listings: whole address spaces and more (a listing is not limited to 64 KiB)
+    for (k, size) in [0xfff0usize, 0xfffd, 0x10000, 0x10001, 0x10003, 0x18000, 0x20000, 0x30005].iter().enumerate() {
+        if !rec.ctx.mine(5 + k) || rec.too_many() {
+            continue;
+        }
+        for base in [0u16, 0x0150, 0xfffe] {
+            let seed = rec.ctx.seed ^ ((k as u64) << 32) ^ base as u64;
+            let case = long_json(base, seed, *size);
+            rec.current(&case.to_string());
+            rec.eval(1);
+            rec.class("disasm-long-listing", 1);
+            if *size >= 0x10000 {
+                rec.class("disasm-listing-of-64k-or-more", 1);
+            }
+            rec.nontrivial(fnv(case.to_string().as_bytes()));
+            if let Err(e) = test_disasm(base, &long_listing(seed, *size)) {
+                let mut d = e.detail;
+                d.truncate(600);
+                rec.violation(&format!("long-{}", e.sig), case, d);
+            }
+        }
+    }
     // every single instruction on its own, at the wrap and elsewhere
     if rec.ctx.mine(2) {
         for op in 0..=255u8 {
@@ -548,6 +600,16 @@ fn replay(case: &Value, rec: &mut Rec) {
             let instrs: Vec<Vec<u8>> = case.get("instructions").and_then(|v| v.as_array()).map(|a| a.iter().map(|s| unhex(s.as_str().unwrap_or(""))).collect()).unwrap_or_default();
             if let Err(e) = test_disasm(base, &instrs) {
                 rec.violation(&e.sig, case.clone(), e.detail);
+            }
+        }
+        Some("disasm-long") => {
+            let base = case.get("base").and_then(|v| v.as_u64()).unwrap_or(0) as u16;
+            let seed = case.get("seed").and_then(|v| v.as_u64()).unwrap_or(0);
+            let size = (case.get("size").and_then(|v| v.as_u64()).unwrap_or(0x10000) as usize).min(0x100000);
+            if let Err(e) = test_disasm(base, &long_listing(seed, size)) {
+                let mut d = e.detail;
+                d.truncate(600);
+                rec.violation(&format!("long-{}", e.sig), case.clone(), d);
             }
         }
         _ => rec.inconclusive("replay case is not a C20 case"),
